@@ -4,6 +4,7 @@ package eng
 // raw client with segmentation schedules.
 
 import (
+	"math"
 	"context"
 	"encoding/json"
 	"errors"
@@ -100,7 +101,7 @@ func (l *EvLog) Len() int {
 // ---- scripted dispatcher -------------------------------------------------------------------
 
 type Step struct {
-	Op    string          `json:"op"` // reply | error | builtin | yield
+	Op    string          `json:"op"` // reply | error | builtin | yield | hook | badreply (C16 only: unencodable value)
 	Cont  bool            `json:"cont,omitempty"`
 	Name  string          `json:"name,omitempty"` // error name / builtin kind
 	Arg   string          `json:"arg,omitempty"`  // builtin argument
@@ -202,6 +203,9 @@ func (d *ScriptDisp) VarlinkDispatch(ctx context.Context, c varlink.Call, method
 			err = c.Reply(ctx, par)
 		case "error":
 			err = c.ReplyError(ctx, st.Name, par)
+		case "badreply":
+			// a handler bug: a value that cannot be encoded as JSON; Reply reports an error, nothing goes out
+			err = c.Reply(ctx, map[string]interface{}{"x": math.NaN()})
 		case "builtin":
 			switch st.Name {
 			case "InterfaceNotFound":
